@@ -30,8 +30,15 @@ def _sym_bitarray(ctx, size):
     from probables.utilities import Bitarray
     b = Bitarray(size)
     nb = b.size_bytes
-    for j in range(nb):
-        b._bitarray[j] = ctx.bits(f"byte{j}", 8)
+    if ctx.sym:
+        for j in range(nb):
+            b._bitarray[j] = ctx.bits(f"byte{j}", 8)
+    else:       # replay: the state is re-created through the public API (set_bit per set bit)
+        want = [ctx.bits(f"byte{j}", 8) for j in range(nb)]
+        for p in range(size):
+            if (want[p // 8] >> (p % 8)) & 1:
+                b.set_bit(p)
+        ctx.assume(list(b._bitarray) == want)
     pre = _state(ctx, b)
     ctx.assume(ctx.and_([ctx.not_(p) for p in pre[size:]]))
     return b, pre
